@@ -71,7 +71,9 @@ def _r11(ctx):
     prog = ctx.prog
     statefam.selftest()
     ctx.rule("R-C04-11", floor=1, what="process() of the FKM nonlinear detector rejects input before it changes detector state")
-    fi = inlined(prog, prog.func(D + "process"))
+    # rejections written in process() itself; what the helpers it calls (the shared _new_turns of all detectors, numpy) raise on
+    # malformed input happens after the pass counter on the pinned tree as well and is not what this clause decides
+    fi = prog.func(D + "process")
     hits = statefam.state_before_raise(prog, fi)
     for r, st, attr in hits:
         ctx.violated(fi, r, "process() can reach `%s` after it has already changed self.%s (`%s`): the rejected call leaves the "
